@@ -32,11 +32,19 @@ var (
 	fset    = token.NewFileSet()
 	repo    = flag.String("repo", "/repo", "repository root")
 	work    = flag.String("work", "", "output directory")
-	harness = flag.String("harness", "", "harness directory (relative to /verif)")
+	harness = flag.String("harness", "", "harness directory (relative to the verif root)")
+	vroot   = flag.String("root", defaultRoot(), "root of the verif module (default $VERIF_ROOT or /verif)")
 	noAcc   = flag.Bool("noaccess", false, "do not instrument plain memory accesses")
 	drop    = flag.String("drop", "", "comma separated repo files (relative) replaced by stubs: file=stubfile")
 	dropFn  = flag.String("dropfuncs", "srv:HTTP,srv:Cmd,srv:sendSignal", "comma separated pkg:Func top-level functions removed from the instrumented build (they hand a context to net/http / os/exec)")
 )
+
+func defaultRoot() string {
+	if r := os.Getenv("VERIF_ROOT"); r != "" {
+		return r
+	}
+	return "/verif"
+}
 
 type pkgInfo struct {
 	dir   string
@@ -70,7 +78,7 @@ func (imp) ImportFrom(path, dir string, mode types.ImportMode) (*types.Package, 
 		return p.pkg, nil
 	}
 	if path == "verif" || strings.HasPrefix(path, "verif/") {
-		p, err := load(filepath.Join("/verif", strings.TrimPrefix(path, "verif")), path)
+		p, err := load(filepath.Join(*vroot, strings.TrimPrefix(path, "verif")), path)
 		if err != nil {
 			return nil, err
 		}
@@ -154,7 +162,7 @@ func main() {
 	}
 	if *harness != "" {
 		abs, _ := filepath.Abs(*harness)
-		rel, _ := filepath.Rel("/verif", abs)
+		rel, _ := filepath.Rel(*vroot, abs)
 		p, err := load(abs, "verif/"+rel)
 		if err != nil {
 			fmt.Fprintln(os.Stderr, "vinstr:", err)
